@@ -4,6 +4,7 @@ pub mod bits;
 pub mod crc;
 pub mod fields;
 pub mod frame;
+pub mod fuzzglue;
 pub mod infra;
 pub mod msggen;
 pub mod msm;
